@@ -12,7 +12,7 @@ Per target:
   theorem   name of the equivalence theorem in Yaql.Props.Src<Area>
   ambient   [(lean name, lean type)] extra leading parameters (tables of the running interpreter)
   prims     python dotted name -> Prim: calls the translator maps to a named Lean primitive
-  fix       parameter -> (Lean text, python callable): how a callable parameter is instantiated in
+  fix       parameter -> (Lean text, 'module:callable'): how a callable parameter is instantiated in
             the theorem and in the differential
 """
 from py2lean import Target, Prim, T  # noqa
@@ -58,82 +58,86 @@ area('Strings', imports=['Yaql.Model.PyPrelude', 'Yaql.Model.PyStr', 'Yaql.Model
 
 S = 'yaql.standard_library.strings:'
 ATOM = '@Yaql.Strings.Atom'
+STR_OF = ('Yaql.Strings.strOf', 'yaql.standard_library.strings:str_')
 
 target(S + 'substring', area='Strings', owners=['C19'],
        params=[('string', 'str'), ('start', 'int'), ('length', 'int')], ret='str',
-       model='Yaql.Strings.substring string start length', theorem='substring_src_eq', gen='str_int_int')
+       model='Yaql.Strings.substring string start length', theorem='substring_src_eq')
 target(S + 'index_of', area='Strings', owners=['C19'],
        params=[('string', 'str'), ('sub', 'str'), ('start', 'int')], ret='int',
-       model='Yaql.Strings.indexOf string sub start', theorem='index_of_src_eq', gen='str_sub_int')
+       model='Yaql.Strings.indexOf string sub start', theorem='index_of_src_eq')
 target(S + 'index_of_', area='Strings', owners=['C19'], name='index_of4',
        params=[('string', 'str'), ('sub', 'str'), ('start', 'int'), ('length', 'int')], ret='int',
-       model='Yaql.Strings.indexOf4 string sub start length', theorem='index_of4_src_eq', gen='str_sub_int_int')
+       model='Yaql.Strings.indexOf4 string sub start length', theorem='index_of4_src_eq')
 target(S + 'last_index_of', area='Strings', owners=['C19'],
        params=[('string', 'str'), ('sub', 'str'), ('start', 'int')], ret='int',
-       model='Yaql.Strings.lastIndexOf string sub start', theorem='last_index_of_src_eq', gen='str_sub_int')
+       model='Yaql.Strings.lastIndexOf string sub start', theorem='last_index_of_src_eq')
 target(S + 'last_index_of_', area='Strings', owners=['C19'], name='last_index_of4',
        params=[('string', 'str'), ('sub', 'str'), ('start', 'int'), ('length', 'int')], ret='int',
-       model='Yaql.Strings.lastIndexOf4 string sub start length', theorem='last_index_of4_src_eq',
-       gen='str_sub_int_int')
+       model='Yaql.Strings.lastIndexOf4 string sub start length', theorem='last_index_of4_src_eq')
 target(S + 'trim', area='Strings', owners=['C19'], ambient=CFG,
        params=[('string', 'str'), ('chars', 'str?')], ret='str',
-       model='Yaql.Strings.trim cfg string chars', theorem='trim_src_eq', gen='str_chars')
+       model='Yaql.Strings.trim cfg string chars', theorem='trim_src_eq')
 target(S + 'trim_left', area='Strings', owners=['C19'], ambient=CFG,
        params=[('string', 'str'), ('chars', 'str?')], ret='str',
-       model='Yaql.Strings.trimLeft cfg string chars', theorem='trim_left_src_eq', gen='str_chars')
+       model='Yaql.Strings.trimLeft cfg string chars', theorem='trim_left_src_eq')
 target(S + 'trim_right', area='Strings', owners=['C19'], ambient=CFG,
        params=[('string', 'str'), ('chars', 'str?')], ret='str',
-       model='Yaql.Strings.trimRight cfg string chars', theorem='trim_right_src_eq', gen='str_chars')
+       model='Yaql.Strings.trimRight cfg string chars', theorem='trim_right_src_eq')
 target(S + 'norm', area='Strings', owners=['C19'], ambient=CFG,
        params=[('string', 'str?'), ('chars', 'str?')], ret='str?',
-       model='Yaql.Strings.norm cfg string chars', theorem='norm_src_eq', gen='optstr_chars')
+       model='Yaql.Strings.norm cfg string chars', theorem='norm_src_eq')
 target(S + 'is_empty', area='Strings', owners=['C19'], ambient=CFG,
        params=[('string', 'str?'), ('trim_spaces', 'bool'), ('chars', 'str?')], ret='bool',
-       model='Yaql.Strings.isEmpty cfg string trim_spaces chars', theorem='is_empty_src_eq',
-       gen='optstr_bool_chars')
-target(S + 'replace', area='Strings', owners=['C19'],
+       model='Yaql.Strings.isEmpty cfg string trim_spaces chars', theorem='is_empty_src_eq')
+# CPython converts `count` / `max_splits` to Py_ssize_t: outside that range the call raises OverflowError, which the
+# hand-written model does not have (it is total there) - the theorems carry the guard explicitly
+target(S + 'replace', area='Strings', owners=['C19'], raises=True,
        params=[('string', 'str'), ('old', 'str'), ('new', 'str'), ('count', 'int')], ret='str',
-       model='Yaql.Strings.replace string old new count', theorem='replace_src_eq', gen='str_old_new_int')
+       model='if Yaql.Py.ssizeOk count then .ok (Yaql.Strings.replace string old new count) else .error .overflowError',
+       theorem='replace_src_eq')
 target(S + 'replace_with_dict', area='Strings', owners=['C19'],
        params=[('string', 'str'), ('str_func', 'fn(%s) -> str' % ATOM), ('replacements', '{%s: %s}' % (ATOM, ATOM)),
                ('count', 'int')], ret='str',
-       fix={'str_func': 'Yaql.Strings.strOf'},
-       model='Yaql.Strings.replaceDict string replacements count', theorem='replace_with_dict_src_eq',
-       gen='str_atomdict_int')
+       fix={'str_func': STR_OF}, raises=True,
+       model='if Yaql.Py.ssizeOk count || replacements.isEmpty then .ok (Yaql.Strings.replaceDict string replacements count) '
+             'else .error .overflowError', theorem='replace_with_dict_src_eq')
 target(S + 'join', area='Strings', owners=['C19'],
        params=[('sequence', '[%s]' % ATOM), ('separator', 'str'), ('str_delegate', 'fn(%s) -> str' % ATOM)], ret='str',
-       fix={'str_delegate': 'Yaql.Strings.strOf'},
-       model='Yaql.Strings.joinAtoms sequence separator', theorem='join_src_eq', gen='atoms_str')
+       fix={'str_delegate': STR_OF},
+       model='Yaql.Strings.joinAtoms sequence separator', theorem='join_src_eq')
 target(S + 'join_', area='Strings', owners=['C19'], name='join2',
        params=[('separator', 'str'), ('sequence', '[%s]' % ATOM), ('str_delegate', 'fn(%s) -> str' % ATOM)], ret='str',
-       fix={'str_delegate': 'Yaql.Strings.strOf'},
-       model='Yaql.Strings.joinAtoms sequence separator', theorem='join2_src_eq', gen='str_atoms')
+       fix={'str_delegate': STR_OF},
+       model='Yaql.Strings.joinAtoms sequence separator', theorem='join2_src_eq')
 target(S + 'split', area='Strings', owners=['C19'], ambient=CFG, raises=True,
        params=[('string', 'str'), ('separator', 'str?'), ('max_splits', 'int')], ret='[str]',
-       model='Yaql.PyStr.liftErr (Yaql.Strings.split cfg string separator max_splits)',
-       theorem='split_src_eq', gen='str_sep_int')
+       model='if Yaql.Py.ssizeOk max_splits then Yaql.PyStr.liftErr (Yaql.Strings.split cfg string separator max_splits) '
+             'else .error .overflowError',
+       theorem='split_src_eq')
 target(S + 'right_split', area='Strings', owners=['C19'], ambient=CFG, raises=True,
        params=[('string', 'str'), ('separator', 'str?'), ('max_splits', 'int')], ret='[str]',
-       model='Yaql.PyStr.liftErr (Yaql.Strings.rightSplit cfg string separator max_splits)',
-       theorem='right_split_src_eq', gen='str_sep_int')
+       model='if Yaql.Py.ssizeOk max_splits then Yaql.PyStr.liftErr (Yaql.Strings.rightSplit cfg string separator max_splits) '
+             'else .error .overflowError',
+       theorem='right_split_src_eq')
 target(S + 'in_', area='Strings', owners=['C19'],
        params=[('left', 'str'), ('right', 'str')], ret='bool',
-       model='Yaql.Strings.isIn left right', theorem='in_src_eq', gen='sub_str')
+       model='Yaql.Strings.isIn left right', theorem='in_src_eq')
 target(S + 'starts_with', area='Strings', owners=['C19'],
        params=[('string', 'str'), ('prefixes', '[str]')], ret='bool',
-       model='Yaql.Strings.startsWith string prefixes', theorem='starts_with_src_eq', gen='str_strs')
+       model='Yaql.Strings.startsWith string prefixes', theorem='starts_with_src_eq')
 target(S + 'ends_with', area='Strings', owners=['C19'],
        params=[('string', 'str'), ('suffixes', '[str]')], ret='bool',
-       model='Yaql.Strings.endsWith string suffixes', theorem='ends_with_src_eq', gen='str_strs')
+       model='Yaql.Strings.endsWith string suffixes', theorem='ends_with_src_eq')
 target(S + 'concat', area='Strings', owners=['C19'],
        params=[('args', '[str]')], ret='str',
-       model='Yaql.Strings.concat args', theorem='concat_src_eq', gen='strs')
+       model='Yaql.Strings.concat args', theorem='concat_src_eq')
 target(S + 'len_', area='Strings', owners=['C19'],
        params=[('string', 'str')], ret='int',
-       model='Yaql.Strings.len string', theorem='len_src_eq', gen='str1')
+       model='Yaql.Strings.len string', theorem='len_src_eq')
 target(S + 'to_char_array', area='Strings', owners=['C19'],
        params=[('string', 'str')], ret='[str]',
-       model='Yaql.Strings.toCharArray string', theorem='to_char_array_src_eq', gen='str1')
+       model='Yaql.Strings.toCharArray string', theorem='to_char_array_src_eq')
 
 
 def by_area():
